@@ -89,10 +89,12 @@ def _check_format(fmt, value):
         return FORMAT_CHECKER.conforms(value, fmt)
     return True
 
-def validator_for(js, dialect):
+def validator_for(js, dialect, mode="request"):
     cls = D2020 if dialect == "3.1" else D4
     fc = jsonschema.FormatChecker()
-    for name in ("byte", "binary"):
+    # `byte` (base64) is an OpenAPI format: generated request data must respect it; for responses Schemathesis only
+    # claims the formats of the JSON Schema format checker, so it is left unconstrained there.
+    for name in ("byte", "binary") if mode == "request" else ("binary",):
         fc.checks(name)(lambda v, _n=name: _check_format(_n, v))
     for name in FORMAT_CHECKER.checkers:
         fc.checks(name)(lambda v, _n=name: _check_format(_n, v))
@@ -100,11 +102,11 @@ def validator_for(js, dialect):
 
 def is_valid(schema, value, *, dialect, root=None, mode="request"):
     js = to_jsonschema(schema, dialect=dialect, root=root or {}, mode=mode)
-    return validator_for(js, dialect).is_valid(value)
+    return validator_for(js, dialect, mode).is_valid(value)
 
 def errors(schema, value, *, dialect, root=None, mode="request"):
     js = to_jsonschema(schema, dialect=dialect, root=root or {}, mode=mode)
-    return [f"{'/'.join(map(str,e.absolute_schema_path))}: {e.message[:120]}" for e in validator_for(js, dialect).iter_errors(value)]
+    return [f"{'/'.join(map(str,e.absolute_schema_path))}: {e.message[:120]}" for e in validator_for(js, dialect, mode).iter_errors(value)]
 
 # ---- wire reading -------------------------------------------------------------------------------
 INT_RE = re.compile(r"^-?(0|[1-9]\d*)$")
